@@ -25,6 +25,11 @@ CLAIMED = {
    note="Trusted: Coq kernel + VM; no axioms. Modelled, not verified: that render passes write only the three private property keys and that wrappers cache nothing but the parsed HTML template; user callbacks are absent (as the property says). Tied to the code only on the sequences each run executes.",
    technique="Coq proof by induction over render sequences (observable-state preservation) + differential check of repeated renders and before/after snapshots, judged by vm_compute",
    ref="6 (C14)"),
+ "C09": dict(
+   text="Machine-checked proof (Coq 8.16.1, closed under the global context), per renderer model and for ALL views (no bound on rows, cells or bytes): rendering never panics (every Go index expression is a checked idx in the model, so this is a real statement), and the Render() wrapper returns the empty string whenever it returns an error; composed with the core invariant that no row is longer than the column count. The renderer theorems present are listed in coq/Props/C09.v (it grows as renderer models are merged). The tie to the code is the property's own quantifier: every table shape up to 3 rows x 2 cells built by every public building method (incl. rows extended after attach) and random tables with text-like items whose declared sizes disagree with their text are rendered under recover() by all five renderers, every registered decoration and every listed auto style; Coq requires no panic and no text with an error, and agreement with the model's outcome.",
+   note="Trusted: Coq kernel + VM; no axioms. The totality theorems are about the hand-written renderer models; renderers whose model is not yet merged are covered by the exhaustive/random execution only (see the theorem list in evidence). Resource exhaustion (absurd declared heights) and wrongly typed property values are outside the property's domain (DESIGN 13).",
+   technique="Coq proof of totality per renderer model over all views + exhaustive small-scope and random execution of every renderer/style under recover(), judged by vm_compute",
+   ref="6 (C09)"),
 }
 
 def main():
